@@ -918,3 +918,19 @@ func specTextFlag(inURL, isURLSet bool) int8 {
 //@   ensures[C15] len(fb.fn.Body) == old(len(fb.fn.Body)) + 1 ==> fb.fn.Body[len(fb.fn.Body)-1].C == specTextFlag(inURL, isURLSet)
 //@   ensures[C15] len(fb.fn.Body) == old(len(fb.fn.Body)) + 1 ==> fb.fn.Body[len(fb.fn.Body)-1].Op == runtime.OpText
 //@   ensures[C15] len(fb.fn.Body) == old(len(fb.fn.Body)) + 1 ==> int(decodeUint16(fb.fn.Body[len(fb.fn.Body)-1].A, fb.fn.Body[len(fb.fn.Body)-1].B)) == len(fb.fn.Text)
+
+// ---------------------------------------------------------------------------
+// C17: a predefined (native) variable must be recorded under the same package
+// and name whichever reference creates its Global entry, because Run binds the
+// values of its vars map by Global.Pkg == "main" and Global.Name. The type
+// checker describes a captured predefined variable by an ast.Upvar; the emitter
+// creates the Global from it when the variable is first reached through a
+// function literal or macro (setFunctionVarRefs), and from the identifier's
+// typeInfo when first reached directly (nonLocalVarIndex): the Upvar built in
+// checkIdentifier must therefore carry the typeInfo's package name.
+// ---------------------------------------------------------------------------
+
+//@ func (*typechecker).checkIdentifier
+//@   props X00 C17
+//@   panics allowed
+//@   litassert[C17] ast.Upvar 1 lit.NativePkg == ti.NativePackageName && lit.NativeName == ident.Name && lit.Declaration == nil
